@@ -86,8 +86,10 @@ def run(chk, which="C16"):
             oname = rnd.choice(names)
             while oname in ("Hertz", "Becquerel", "Celsius", "Fahrenheit", "Rankines", "Kelvins"):
                 oname = rnd.choice(names)
-            x = rnd.choice(["7", "3.25", "-2.5f", "11u", "(int8_t)5", "123456789012LL"])
-            T = {"7": "int", "3.25": "double", "-2.5f": "float", "11u": "unsigned", "(int8_t)5": "int8_t", "123456789012LL": "long long"}[x]
+            XS = {"7": "int", "3.25": "double", "-2.5f": "float", "11u": "unsigned", "(int8_t)5": "int8_t", "123456789012LL": "long long", "-0.0": "double", "-0.0f": "float",
+                  "std::numeric_limits<double>::quiet_NaN()": "double", "std::numeric_limits<float>::infinity()": "float", "(uint8_t)200": "uint8_t", "5e-324": "double"}
+            x = rnd.choice(sorted(XS))
+            T = XS[x]
             forms = [("num*C", f"vfy::reify_composed(TAG, {x} * {cexpr}, ({T}){x});", "C"), ("C*num", f"vfy::reify_composed(TAG, {cexpr} * {x}, ({T}){x});", "C"),
                      ("num/C", f"vfy::reify_composed(TAG, {x} / {cexpr}, ({T}){x});", "1/C"),
                      ("q*C", f"vfy::reify_composed(TAG, au::{units[oname].maker}({x}) * {cexpr}, ({T}){x});", "O*C"),
